@@ -373,12 +373,18 @@ def mro(mod, cname):
 
 
 def mro_lookup(obj, name):
+    return _mro_lookup(obj.mod, obj.cls, name)
+
+
+@functools.lru_cache(maxsize=None)
+def _mro_lookup(mod, cls, name):
+    """(memoised per process: the module ASTs are read once per run, pyvc.intake.module_ast)"""
     try:
-        order = mro(obj.mod, obj.cls)
+        order = mro(mod, cls)
     except intake.IntakeError:
         return None
     for c in order:
-        cnode = intake.func(f'{obj.mod}.{c}')[0]
+        cnode = intake.func(f'{mod}.{c}')[0]
         for b in cnode.body:
             if isinstance(b, ast.FunctionDef) and b.name == name and \
                     not any(isinstance(d, ast.Attribute) and d.attr in ('setter', 'deleter') for d in b.decorator_list):
